@@ -44,6 +44,8 @@ type snet struct {
 	selfAck  bool
 	held     map[uint16]*IncMessage // the Byzantine party's commitment per destination, kept until its key is known
 	picks    map[string][]uint16    // silent mode: topic hash -> members
+	ids      []uint16               // identifier of the node of rank i+1
+	idx      map[uint16]int         // identifier -> index into nodes
 	stop     chan struct{}
 	wg       sync.WaitGroup
 	sent     int
@@ -162,7 +164,7 @@ func (nw *snet) schedule() {
 				nw.busy[l] = false
 				nw.mu.Unlock()
 			}()
-			nw.nodes[l.to-1].HandleMessage(m)
+			nw.nodes[nw.idx[l.to]].HandleMessage(m)
 		}(l, m)
 	}
 }
@@ -206,17 +208,23 @@ func (l capLog) note(f string, a ...interface{}) {
 func (l capLog) Warnf(f string, a ...interface{})  { l.note(f, a...) }
 func (l capLog) Errorf(f string, a ...interface{}) { l.note(f, a...) }
 
-func buildNet(silent bool, n, t int, seed uint64) *snet {
+func buildNet(silent bool, n, t int, seed uint64, ids []uint16) *snet {
 	nw := &snet{n: n, queues: map[link][]*IncMessage{}, busy: map[link]bool{}, rng: newPRNG(seed), groupB: map[uint16]bool{},
-		held: map[uint16]*IncMessage{}, picks: map[string][]uint16{}, stop: make(chan struct{})}
+		held: map[uint16]*IncMessage{}, picks: map[string][]uint16{}, stop: make(chan struct{}), idx: map[uint16]int{}}
 	mem := map[UniversalID]PartyID{}
 	all := make([]uint16, n)
 	for i := 1; i <= n; i++ {
-		mem[UniversalID(i)] = PartyID(i)
 		all[i-1] = uint16(i)
+		if ids != nil {
+			all[i-1] = ids[i-1] // node identifier = party identifier, but not 1..n
+		}
+		mem[UniversalID(all[i-1])] = PartyID(all[i-1])
+		nw.idx[all[i-1]] = i - 1
 	}
+	nw.ids = all
 	membership := func() map[UniversalID]PartyID { return mem }
-	for id := uint16(1); id <= uint16(n); id++ {
+	for _, id := range all {
+		id := id
 		kgf := func(id uint16) KeyGenerator { return &bls.TBLS{Logger: nolog{}, Party: id} }
 		sf := func(id uint16) Signer { return &bls.TBLS{Logger: nolog{}, Party: id} }
 		if silent {
@@ -258,6 +266,7 @@ type jStack struct {
 	N           int            `json:"n"`
 	T           int            `json:"t"`
 	Fault       string         `json:"fault"` // none | equivocate | equivocate-selfack
+	IDs         []int          `json:"ids"`   // node = party identifiers of the participants, in order
 	Byz         int            `json:"byz"`
 	GroupB      []int          `json:"group_b"`
 	KeyGen      []string       `json:"keygen"`    // per party: ok | err | timeout | panic
@@ -293,12 +302,15 @@ func tsubsets(n, t int) [][]uint16 {
 
 var signTimeout = 4 * time.Second
 
-func runStackScenario(id int, silent bool, n, t int, fault string, seed uint64, maxSubsets int) jStack {
+func runStackScenario(id int, silent bool, n, t int, fault string, seed uint64, maxSubsets int, ids []uint16) jStack {
 	t0 := time.Now()
-	nw := buildNet(silent, n, t, seed)
+	nw := buildNet(silent, n, t, seed, ids)
 	sc := jStack{Kind: "stack", ID: id, Mode: "loud", N: n, T: t, Fault: fault, GroupB: []int{}, Panics: []string{}, SignFails: []string{}}
 	if silent {
 		sc.Mode = "silent"
+	}
+	for _, x := range nw.ids {
+		sc.IDs = append(sc.IDs, int(x))
 	}
 	timeout := 20 * time.Second
 	if fault != "none" {
@@ -378,12 +390,8 @@ func runStackScenario(id int, silent bool, n, t int, fault string, seed uint64, 
 		for i := 0; i < n; i++ {
 			nw.nodes[i].SetStoredData(data[i])
 		}
-		holder := &bls.TBLS{Logger: nolog{}, Party: 1}
-		all := make([]uint16, n)
-		for i := range all {
-			all[i] = uint16(i + 1)
-		}
-		holder.Init(all, t, nil)
+		holder := &bls.TBLS{Logger: nolog{}, Party: nw.ids[0]}
+		holder.Init(append([]uint16{}, nw.ids...), t, nil)
 		var v bls.Verifier
 		verifier := holder.SetShareData(data[0]) == nil
 		if verifier {
@@ -403,8 +411,12 @@ func runStackScenario(id int, silent bool, n, t int, fault string, seed uint64, 
 				topic := fmt.Sprintf("sign-%d-%d-%d", id, si, dg)
 				digest := sha256.Sum256([]byte(topic + "/digest"))
 				th := sha256.Sum256([]byte(topic))
+				subIDs := make([]uint16, len(sub)) // sub holds ranks
+				for k, p := range sub {
+					subIDs[k] = nw.ids[p-1]
+				}
 				nw.mu.Lock()
-				nw.picks[string(th[:])] = sub
+				nw.picks[string(th[:])] = subIDs
 				nw.mu.Unlock()
 				sigs := make([][]byte, len(sub))
 				var sw sync.WaitGroup
@@ -435,7 +447,7 @@ func runStackScenario(id int, silent bool, n, t int, fault string, seed uint64, 
 				}
 				sc.SignOK++
 				if verifier {
-					if agg, err := v.AggregateSignatures(sigs, sub); err == nil && v.Verify(digest[:], agg) == nil {
+					if agg, err := v.AggregateSignatures(sigs, subIDs); err == nil && v.Verify(digest[:], agg) == nil {
 						sc.Verified++
 					}
 				}
@@ -486,13 +498,32 @@ func runStack(r *prng, thorough bool, only string) {
 		n, t   int
 		fault  string
 		seed   uint64
+		ids    []uint16
 	}
 	var jobs []job
 	for _, silent := range []bool{false, true} {
 		for n := 2; n <= maxN; n++ {
 			for t := 2; t <= n; t++ {
 				if only != "deviant" {
-					jobs = append(jobs, job{silent, n, t, "none", r.next()})
+					jobs = append(jobs, job{silent, n, t, "none", r.next(), nil})
+				}
+			}
+		}
+	}
+	// participant sets that are not 1..n (gaps, not starting at 1, beyond one byte): every t-subset must still verify
+	if only != "deviant" {
+		stackSets := [][]uint16{{1, 2, 4}, {2, 3, 5}, {1, 3, 4, 6}, {255, 256, 300}}
+		if thorough {
+			stackSets = append(stackSets, []uint16{3, 7}, []uint16{0, 1, 2}, []uint16{65533, 65534, 65535}, []uint16{1, 2, 4, 8, 16})
+		}
+		for si, ids := range stackSets {
+			n := len(ids)
+			for t := 2; t <= n; t++ {
+				if !thorough && t != 2+si%(n-1) {
+					continue // quick: one threshold per set
+				}
+				for _, silent := range []bool{false, true} {
+					jobs = append(jobs, job{silent, n, t, "none", r.next(), ids})
 				}
 			}
 		}
@@ -503,10 +534,10 @@ func runStack(r *prng, thorough bool, only string) {
 	for k := 0; k < byzRuns; k++ {
 		for _, nt := range [][2]int{{3, 3}, {3, 2}, {4, 4}, {4, 3}} {
 			for _, f := range []string{"equivocate", "equivocate-selfack"} {
-				jobs = append(jobs, job{false, nt[0], nt[1], f, r.next()})
+				jobs = append(jobs, job{false, nt[0], nt[1], f, r.next(), nil})
 			}
 		}
-		jobs = append(jobs, job{true, 3, 3, "equivocate-selfack", r.next()})
+		jobs = append(jobs, job{true, 3, 3, "equivocate-selfack", r.next(), nil})
 	}
 	res := make([]jStack, len(jobs))
 	var wg sync.WaitGroup
@@ -517,7 +548,7 @@ func runStack(r *prng, thorough bool, only string) {
 			defer wg.Done()
 			sem <- struct{}{}
 			defer func() { <-sem }()
-			res[i] = runStackScenario(i+1, j.silent, j.n, j.t, j.fault, j.seed, maxSubsets)
+			res[i] = runStackScenario(i+1, j.silent, j.n, j.t, j.fault, j.seed, maxSubsets, j.ids)
 		}(i, j)
 	}
 	wg.Wait()
